@@ -5,6 +5,9 @@
 
 package webtransport
 
+// package-level error values are initialised once and never nil
+//@ global transport.ErrAlreadyClosed != nil
+
 // ---------------------------------------------------------------- C14: one sequence-number space per connection
 // Every message that goes out on the datagram path of one connection draws its
 // sequence number from the single per-connection counter, whichever handle sends
@@ -14,3 +17,75 @@ package webtransport
 //@   props C14
 //@   requires t.txBytesCounter != nil
 //@   assert call SendTo: arg1 == t.sequenceNumber && t.sequenceNumber == (old(t.sequenceNumber) + 1) % 4294967296
+
+// ---------------------------------------------------------------- C13: stream framing
+// (same framing as transport/quic; the assumed io.Writer contract is declared there)
+// One message = one frame: a 4-byte big-endian length prefix that equals the payload
+// length, followed by the payload bytes themselves, unchanged; nothing else is written,
+// and the reported byte count is exactly what was framed. (A frame of 4 GiB or more cannot be
+// expressed by the prefix: the prefix is the length modulo 2^32; such messages are out of scope.)
+//@ func writeTo
+//@   props C13
+//@   nopanic
+//@   requires wr != nil
+//@   ghostvar nw int = 0
+//@   assert call Write: ite(nw == 0, len(arg0) == 4 && be32(arg0, 0) == len(payload) % 4294967296, nw == 1 && len(arg0) == len(payload) && forall(i, int, imp(0 <= i && i < len(payload), arg0[i] == old(payload[i]))))
+//@   after call Write: nw = nw + 1
+//@   ensures imp(result1 == nil, nw == 2 && result0 == 4 + len(payload))
+//@   ensures imp(result1 != nil, result0 == 0)
+
+// A message is encoded and framed under sendMu (concurrent writers cannot interleave inside
+// a frame), and the byte counter grows by exactly the bytes framed.
+//@ func (*Transport).Write
+//@   props C13
+//@   requires t.txBytesCounter != nil && t.sendStream != nil
+//@   ghostvar framed int = 0
+//@   assert call encodeFunc: held(t.sendMu)
+//@   assert call writeTo: held(t.sendMu) && arg0 == t.sendStream
+//@   after call writeTo: framed = res0
+//@   assert call AddUint64: arg0 == t.txBytesCounter && arg1 == framed
+
+// Reading a frame: exactly 4 header bytes, then exactly as many payload bytes as the header
+// announces, are taken from the stream; exactly those payload bytes go to the decoder, and the
+// byte counter grows by the bytes consumed (4 + length, in uint32 arithmetic as the code has it).
+//@ func (*Transport).decodeFrom
+//@   props C13
+//@   requires t.rxBytesCounter != nil
+//@   ghostvar nr int = 0
+//@   ghostvar want int = 0
+//@   ghostvar body []byte = nil
+//@   assert call ReadFull: ite(nr == 0, len(arg1) == 4, nr == 1 && len(arg1) == want)
+//@   after call ReadFull: want = ite(nr == 0, be32(arg1, 0), want)
+//@   after call ReadFull: body = arg1
+//@   after call ReadFull: nr = nr + 1
+//@   assert call AddUint64: nr == 2 && arg0 == t.rxBytesCounter && arg1 == (4 + want) % 4294967296
+//@   assert call decodeFunc: nr == 2 && arg0 == body && len(arg0) == want
+
+// With compression off both codecs are the identity (same slice in, same slice out).
+//@ func New$3
+//@   props C13
+//@   modifies nothing
+//@   ensures result0 == b && result1 == nil
+//@ func New$4
+//@   props C13
+//@   modifies nothing
+//@   ensures result0 == b && result1 == nil
+
+// The stream reader hands up exactly one message per decoded frame, in frame order, before it
+// decodes the next frame; Read returns exactly the message it took from the queue.
+//@ func New$6
+//@   props C13
+//@   requires t.rxBytesCounter != nil
+//@   ghostvar have bool = false
+//@   ghostvar cur []byte = nil
+//@   after call decodeFrom: have = (res1 == nil)
+//@   after call decodeFrom: cur = res0
+//@   assert send readC: have && v.err == nil && v.msg == cur
+//@   after send readC: have = false
+//@   loop 1 invariant !have
+
+//@ func (*Transport).Read
+//@   props C13
+//@   ghostvar got []byte = nil
+//@   after recv readC: got = v.msg
+//@   ensures imp(result1 == nil, result0 == got)
